@@ -157,6 +157,12 @@ def c05_failseq_finalize : List String := ["fail.Fail", "SaveBlock", "fail.Fail"
 /-- order consensus/state.go State.finalizeCommit -/
 def c05_finalize_order : List String := ["SaveBlock", "WriteSync", "ApplyBlock", "updateToState"]
 
+/-- seq consensus/state.go State.finalizeCommit -/
+def c05_finalize_prune_position : List String := ["fail.Fail", "fail.Fail", "fail.Fail", "ApplyBlock", "fail.Fail", "pruneBlocks", "updateToState", "fail.Fail"]
+
+/-- order consensus/state.go State.pruneBlocks -/
+def c05_prune_order : List String := ["Base", "PruneBlocks", "PruneStates"]
+
 /-- has consensus/replay.go Handshaker.ReplayBlocks -/
 def c05_replay_app_ahead_case : Bool := true
 
@@ -367,6 +373,15 @@ def c13_v0_step_order : List String := ["StopPeerForError", "PeekTwoBlocks", "Ve
 /-- has blockchain/v0/reactor.go BlockchainReactor.poolRoutine -/
 def c13_v0_verify_call : Bool := true
 
+/-- const blockchain/v1/reactor.go maxRequestsPerPeer -/
+def c13_v1_maxRequestsPerPeer : Int := 20
+
+/-- order blockchain/v1/reactor.go BlockchainReactor.processBlock -/
+def c13_v1_process_order : List String := ["FirstTwoBlocks", "VerifyCommitLight", "SaveBlock", "ApplyBlock"]
+
+/-- has blockchain/v1/reactor.go NewBlockchainReactor -/
+def c13_v1_start_height : Bool := true
+
 /-- has blockchain/v1/reactor.go BlockchainReactor.processBlock -/
 def c13_v1_verify_call : Bool := true
 
@@ -375,6 +390,12 @@ def c13_v2_handle_order : List String := ["purgePeer", "nextTwo", "verifyCommit"
 
 /-- has blockchain/v2/processor.go pcState.height -/
 def c13_v2_height : Bool := true
+
+/-- cond blockchain/v2/scheduler.go scheduler.setPeerRange -/
+def c13_v2_sched_removed_noop : String := "peer.state == peerStateRemoved"
+
+/-- has blockchain/v2/scheduler.go newScheduler -/
+def c13_v2_targetPending_10 : Bool := true
 
 /-- has blockchain/v2/processor_context.go pContext.verifyCommit -/
 def c13_v2_verify_call : Bool := true
@@ -411,6 +432,21 @@ def c14_state_vals_from_blocks : Bool := true
 
 /-- order statesync/syncer.go syncer.Sync -/
 def c14_sync_order : List String := ["AppHash", "offerSnapshot", "State", "Commit", "applyChunks", "verifyApp"]
+
+/-- has statesync/syncer.go syncer.SyncAny -/
+def c14_syncany_deadline_branch : Bool := true
+
+/-- cond statesync/messages.go validateMsg -/
+def c14_validate_missing_with_contents : String := "msg.Missing && len(msg.Chunk) > 0"
+
+/-- cond statesync/messages.go validateMsg -/
+def c14_validate_nil_chunk : String := "!msg.Missing && msg.Chunk == nil"
+
+/-- cond statesync/messages.go validateMsg -/
+def c14_validate_no_chunks : String := "msg.Chunks == 0"
+
+/-- cond statesync/messages.go validateMsg -/
+def c14_validate_no_hash : String := "len(msg.Hash) == 0"
 
 /-- cond statesync/syncer.go syncer.verifyApp -/
 def c14_verifyApp_hash_guard : String := "!bytes.Equal(snapshot.trustedAppHash, resp.LastBlockAppHash)"
@@ -622,6 +658,9 @@ def c20_update_uses_latest_trusted : Bool := true
 /-- cond crypto/merkle/proof_value.go ValueOp.Run -/
 def c20_valueOp_nil_root : String := "rootHash == nil"
 
+/-- cond p2p/conn/connection.go MConnection.sendPacketMsg -/
+def conn_least_ratio_guard : String := "ratio < leastRatio"
+
 /-- cond consensus/state.go State.addVote -/
 def cons_addVote_nil_lastcommit_guard : String := "cs.LastCommit == nil"
 
@@ -654,6 +693,9 @@ def cs_proposal_keeps_signed_timestamp : Bool := true
 
 /-- order consensus/state.go State.signVote -/
 def cs_signVote_flush_first : List String := ["FlushAndSync", "SignVote"]
+
+/-- has evidence/reactor.go Reactor.ReceiveEnvelope -/
+def ev_receive_punishes_invalid : Bool := true
 
 /-- cond evidence/verify.go validateABCIEvidence -/
 def evpool_abci_nil_check : String := "validators == nil && len(ev.ByzantineValidators) != 0"
@@ -751,6 +793,12 @@ def mempoolV1_victim : String := "cw.priority < priority"
 /-- const crypto/merkle/proof.go MaxAunts -/
 def merkle_MaxAunts : Int := 100
 
+/-- cond mempool/v0/reactor.go Reactor.ReceiveEnvelope -/
+def mp_v0_empty_txs_guard : String := "len(protoTxs) == 0"
+
+/-- cond mempool/v1/reactor.go Reactor.ReceiveEnvelope -/
+def mp_v1_empty_txs_guard : String := "len(protoTxs) == 0"
+
 /-- has p2p/peer.go createMConnection -/
 def peer_onReceive_clones_message_type : Bool := true
 
@@ -759,6 +807,9 @@ def pex_maxAddressSize : Int := 256
 
 /-- const p2p/pex/params.go maxGetSelection -/
 def pex_maxGetSelection : Int := 250
+
+/-- cond p2p/pex/pex_reactor.go Reactor.ReceiveEnvelope -/
+def pex_seed_inbound_guard : String := "r.config.SeedMode && !e.Src.IsOutbound()"
 
 /-- const proto/tendermint/types/types.pb.go PrecommitType -/
 def pv_PrecommitType : Int := 2
@@ -814,6 +865,6 @@ def types_MaxBlockPartsCount : Int := 1601
 /-- const types/vote_set.go MaxVotesCount -/
 def types_MaxVotesCount : Int := 10000
 
-def factCount : Nat := 271
+def factCount : Nat := 288
 
 end Tmv.Facts
